@@ -212,6 +212,11 @@ func (t *Table) GetNextHop(target boson.Address, skips ...boson.Address) (next [
 		// remove duplication next
 		list := make(map[string]boson.Address, len(routes))
 		for _, v := range routes {
+			// a route list reloaded from the state store can still name a
+			// path that was deleted or expired: offer only stored paths
+			if _, has := t.paths.Load(v.PathKey); !has {
+				continue
+			}
 			if !v.Neighbor.MemberOf(skips) {
 				list[v.Neighbor.String()] = v.Neighbor
 			}
